@@ -172,6 +172,14 @@ def corruptions(rng, pr):
   p9 = copy.deepcopy(pr)
   p9.extra_text = list(p9.extra_text) + ['Tcq([1, 2]);', 'Tcr(["a"]);', 'Tcp(l) :- Tcq(l);', 'Tcp(l) :- Tcr(l);']
   out.append(('list-element-clash-via-signatures', p9, 'Tcp'))
+  # 10. a clash between the rules of one predicate that shows only through the signature of a predicate called by
+  #     an earlier rule and defined elsewhere in the file (all textual orders of the three statements)
+  import itertools
+  lines10 = ['Tcu(x) :- Tcw(x);', 'Tcu("a");', 'Tcw(1);']
+  for perm in rng.sample(list(itertools.permutations(lines10)), 2):
+    p10 = copy.deepcopy(pr)
+    p10.extra_text = list(p10.extra_text) + list(perm)
+    out.append(('clash-between-rules-via-callee-signature', p10, 'Tcu'))
   # 3. a later rule gives a head column another type
   cands = [p for p in pr.preds if p.kind == 'concrete' and p.types and p.types[0] in ('int', 'str')]
   if cands:
